@@ -32,6 +32,7 @@ impl VRead for VEmpty {
     open spec fn data(&self) -> Seq<u8> { Seq::empty() }
     open spec fn pos(&self) -> nat { 0 }
     open spec fn wf(&self) -> bool { true }
+    open spec fn nerr(&self) -> nat { 0 }
     #[verifier::external_body]
     fn read(&mut self, buf: &mut [u8]) -> (r: std::io::Result<usize>) { Ok(0) }
 }
